@@ -64,7 +64,8 @@ func b2i(b bool) int {
 	return 0
 }
 
-// opnd: <<kind, a, b, c>> with kind a string and a, b, c integers.
+// opnd: <<kind, a, b, c>> with kind a string and a, b, c integers; the width
+// (RegCount, 0 counted as 1) is logged for constants and literals too.
 func opnd(o *insts.Operand) []any {
 	if o == nil {
 		return []any{"none", 0, 0, 0}
@@ -94,15 +95,15 @@ func opnd(o *insts.Operand) []any {
 		if v > 1<<30 || v < -(1<<30) {
 			return []any{"bad", 1, 0, 0}
 		}
-		return []any{"int", int(v), 0, 0}
+		return []any{"int", int(v), w, 0}
 	case insts.FloatOperand:
 		c, ok := floatCode[o.FloatValue]
 		if !ok {
 			c = -1
 		}
-		return []any{"float", c, 0, 0}
+		return []any{"float", c, w, 0}
 	case insts.LiteralConstant:
-		return []any{"lit", int(o.LiteralConstant >> 16), int(o.LiteralConstant & 0xffff), 0}
+		return []any{"lit", int(o.LiteralConstant >> 16), int(o.LiteralConstant & 0xffff), w}
 	}
 	return []any{"bad", int(o.OperandType), 0, 0}
 }
@@ -159,7 +160,14 @@ func short(s string) string {
 
 // decode calls the real decoder on a private copy of buf (len == cap, so that an
 // over-read cannot silently succeed) and canonicalises the outcome.
-func decode(d *insts.Disassembler, buf []byte) (res map[string]any) {
+func decode(d *insts.Disassembler, buf []byte) map[string]any {
+	res, _ := decodeKeep(d, buf)
+	return res
+}
+
+// decodeKeep also hands out the *insts.Inst the decoder returned, so that it can be
+// inspected again after later Decode calls (a returned instruction must never change).
+func decodeKeep(d *insts.Disassembler, buf []byte) (res map[string]any, kept *insts.Inst) {
 	b := make([]byte, len(buf))
 	copy(b, buf)
 	defer func() {
@@ -180,14 +188,31 @@ func decode(d *insts.Disassembler, buf []byte) (res map[string]any) {
 	inst, err := d.Decode(b)
 	if err != nil {
 		if inst != nil {
-			return map[string]any{"k": "both", "msg": short(err.Error())}
+			return map[string]any{"k": "both", "msg": short(err.Error())}, nil
 		}
-		return map[string]any{"k": "err", "msg": short(err.Error())}
+		return map[string]any{"k": "err", "msg": short(err.Error())}, nil
 	}
 	if inst == nil {
-		return map[string]any{"k": "nilinst"}
+		return map[string]any{"k": "nilinst"}, nil
 	}
-	return describe(inst)
+	return describe(inst), inst
+}
+
+// redescribe canonicalises an instruction that was returned earlier.
+func redescribe(i *insts.Inst) (res map[string]any) {
+	defer func() {
+		if r := recover(); r != nil {
+			res = map[string]any{"k": "panic", "pk": "other", "msg": short(fmt.Sprint(r))}
+		}
+	}()
+	return describe(i)
+}
+
+type held struct {
+	c     int
+	buf   []byte
+	inst  *insts.Inst
+	first string
 }
 
 func canon(x any) string {
@@ -207,6 +232,7 @@ type recorder struct {
 	rng   *rand.Rand
 	group int
 	gsize int
+	ring  []held
 }
 
 func newDis(cdna3 bool) *insts.Disassembler {
@@ -267,8 +293,16 @@ func (r *recorder) two(c int) (*insts.Disassembler, *insts.Disassembler) {
 // result of the first together with the agreement flag.
 func (r *recorder) observe(c int, buf []byte) (map[string]any, int) {
 	a, b := r.two(c)
-	ra := decode(a, buf)
+	ra, kept := decodeKeep(a, buf)
 	rb := decode(b, buf)
+	if kept != nil {
+		h := held{c, append([]byte{}, buf...), kept, canon(ra)}
+		if len(r.ring) < 64 {
+			r.ring = append(r.ring, h)
+		} else {
+			r.ring[r.rng.Intn(len(r.ring))] = h
+		}
+	}
 	ag := b2i(canon(ra) == canon(rb))
 	r.stats["decodes"] += 2
 	r.stats["k_"+ra["k"].(string)]++
@@ -311,6 +345,67 @@ func (r *recorder) word(c int, buf []byte, want any, tag string) {
 	r.emit(rec)
 }
 
+// dec emits one stand-alone line without further probing.
+func (r *recorder) dec(c int, buf []byte, res map[string]any, ag int, want any, tag string) {
+	if r.group >= r.gsize {
+		r.reset()
+	}
+	r.group++
+	rec := map[string]any{"e": "Dec", "c": c, "b": ints(buf), "r": res, "ag": ag, "t": tag}
+	if want != nil {
+		rec["want"] = want
+	}
+	r.stats["k_"+res["k"].(string)]++
+	r.emit(rec)
+}
+
+// reread looks again at an instruction that some earlier Decode call returned: it must
+// still be what it was (ag) - and, judged by the trace spec, what Decode(bytes) is.
+func (r *recorder) reread(h held, want any, tag string) {
+	now := redescribe(h.inst)
+	r.dec(h.c, h.buf, now, b2i(canon(now) == h.first), want, tag)
+	r.stats["rereads"]++
+}
+
+// history: decoding must not depend on what was decoded before, on this or on any other
+// decoder instance, and later decodes must not change instructions already returned.
+// a uses a constant as a 64-bit operand, b uses the same constant as a 32-bit operand
+// (spec-enumerated pair with descriptions wa, wb).
+func (r *recorder) history(c int, a, b []byte, wa, wb any, swap bool) {
+	if swap {
+		a, b, wa, wb = b, a, wb, wa
+	}
+	d1, d2 := r.two(c)
+	keep := func(d *insts.Disassembler, buf []byte, want any, tag string) *held {
+		res, inst := decodeKeep(d, buf)
+		r.dec(c, buf, res, 1, want, tag)
+		r.stats["decodes"]++
+		if inst == nil {
+			return nil
+		}
+		return &held{c, buf, inst, canon(res)}
+	}
+	again := func(h *held, want any, tag string) {
+		if h != nil {
+			r.reread(*h, want, tag)
+		}
+	}
+	ha := keep(d1, a, wa, "hist/first")
+	hb := keep(d1, b, wb, "hist/second")
+	again(ha, wa, "hist/first-reread")
+	again(hb, wb, "hist/second-reread")
+	hb2 := keep(d2, b, wb, "hist/second-other-instance")
+	ha2 := keep(d2, a, wa, "hist/first-other-instance")
+	again(ha, wa, "hist/first-reread2")
+	again(hb, wb, "hist/second-reread2")
+	again(hb2, wb, "hist/second-other-reread")
+	again(ha2, wa, "hist/first-other-reread")
+	fresh := newDis(c == 1)
+	keep(fresh, b, wb, "hist/second-fresh-instance")
+	keep(fresh, a, wa, "hist/first-fresh-instance")
+	r.stats["hist_pairs"]++
+}
+
 // sequential decodes code from offset 0 like emu.ComputeUnit / Disassembler.Disassemble
 // do: the decoder sees the rest of the code (at most win bytes), pc advances by ByteSize.
 func (r *recorder) sequential(c int, code []byte, name string, wants []any, collect *[][]byte) bool {
@@ -344,6 +439,10 @@ func (r *recorder) sequential(c int, code []byte, name string, wants []any, coll
 		pc += sz
 	}
 	r.emit(map[string]any{"e": "KEnd", "pc": pc, "n": n})
+	// instructions returned while walking this (or an earlier) program must still be intact
+	for k := 0; k < 6 && len(r.ring) > 0; k++ {
+		r.reread(r.ring[r.rng.Intn(len(r.ring))], nil, "reread/seq")
+	}
 	r.stats["seq_done"]++
 	r.stats["seq_insts"] += n
 	return true
@@ -498,6 +597,9 @@ func (r *recorder) randomWords(rng *rand.Rand, n int, gold []goldRow, base [][]b
 			tag += "/cut4"
 		}
 		r.word(c, buf, nil, tag)
+		if i%4 == 3 && len(r.ring) > 0 {
+			r.reread(r.ring[rng.Intn(len(r.ring))], nil, "reread")
+		}
 	}
 }
 
@@ -568,6 +670,15 @@ type scenario struct {
 	Want []any `json:"want"`
 	// stand-alone words (each decoded on its own)
 	Words [][]int `json:"words"`
+	// history pairs: {a, b, wa, wb}
+	Pairs []pair `json:"pairs"`
+}
+
+type pair struct {
+	A  []int `json:"a"`
+	B  []int `json:"b"`
+	WA any   `json:"wa"`
+	WB any   `json:"wb"`
 }
 
 func toBytes(x []int) []byte {
@@ -620,6 +731,9 @@ func main() {
 					want = sc.Want[i]
 				}
 				r.word(sc.C, toBytes(wd), want, "scen")
+			}
+			for i, p := range sc.Pairs {
+				r.history(sc.C, toBytes(p.A), toBytes(p.B), p.WA, p.WB, i%2 == 1)
 			}
 		}
 	}
